@@ -9,5 +9,5 @@ for f in DrvC*.lean; do
   targets="$targets drv_$n"
 done
 # a failing module must not stop the others from being built: each check rebuilds what it needs anyway
-lake build $targets || lake build -K $targets || true
+lake build $targets || true
 exit 0
